@@ -465,11 +465,11 @@ fn tmpl_outcome(env: &mut Environment<'static>, src: &str, ctx: &Value) -> (Stri
         let blocks: Vec<&str> = get_compiled_template(&t).blocks.keys().copied().collect();
         parts.push(format!("blocks={}", blocks.join(",")));
         for name in BLOCK_NAMES {
-            let r = t.eval_to_state(ctx.clone()).and_then(|mut st| st.render_block(name));
+            let r = t.render_captured(ctx.clone()).and_then(|mut cap| cap.with_state_mut(|st| st.render_block(name)));
             parts.push(format!("rb.{}={}", name, res(r)));
         }
-        let ex = t.eval_to_state(ctx.clone()).map(|st| {
-            let mut e: Vec<String> = st.exports().into_iter().filter(|n| !n.starts_with('v')).map(|n| n.to_string()).collect();
+        let ex = t.render_captured(ctx.clone()).map(|cap| {
+            let mut e: Vec<String> = cap.state().exports().into_iter().filter(|n| !n.starts_with('v')).map(|n| n.to_string()).collect();
             e.sort();
             e.join(",")
         });
